@@ -134,6 +134,13 @@ func And(c ...bool) bool {
 	return r
 }
 
+func Ite(c bool, a, b int64) int64 {
+	if c {
+		return a
+	}
+	return b
+}
+
 func Abs64(v int64) int64 {
 	if v < 0 {
 		return -v
